@@ -43,6 +43,20 @@ fn run_case(id: &str, policy: &str, cap: u64, ops: &[String]) -> String {
   let mut tr = Tr::new(id, &format!("policy={policy} cap={cap}"));
   let mut m = Mon { policy: policy.to_string(), want: BTreeMap::new(), fails: vec![], stamp: BTreeMap::new(), clock: 0, inconsistent_input: false, readmit_changed_cost: false };
   for op in ops {
+    let r = std::panic::catch_unwind(std::panic::AssertUnwindSafe(|| run_op(&p, policy, op, &mut tr, &mut m)));
+    if r.is_err() {
+      tr.line(op, "panic");
+      let name = op.split_whitespace().next().unwrap_or("?").to_string();
+      m.fail(&format!("{name}-panicked"), format!("`{op}` panicked inside the policy"));
+      break;
+    }
+  }
+  for (s, msg) in &m.fails { tr.monitor(s, msg); }
+  tr.finish()
+}
+
+fn run_op(p: &P, policy: &str, op: &str, tr: &mut Tr, m: &mut Mon) {
+  {
     let t: Vec<&str> = op.split_whitespace().collect();
     let n = |i: usize| -> u64 { t.get(i).and_then(|s| s.parse().ok()).unwrap_or(0) };
     m.clock += 1;
@@ -112,8 +126,6 @@ fn run_case(id: &str, policy: &str, cap: u64, ops: &[String]) -> String {
       _ => tr.raw(&format!("# unknown op {op}")),
     }
   }
-  for (s, msg) in &m.fails { tr.monitor(s, msg); }
-  tr.finish()
 }
 
 fn gen_ops(rng: &mut Rng, policy: &str, cap: u64) -> Vec<String> {
